@@ -51,6 +51,9 @@ def check(history, drained, concurrent=False, slack=0.002):
         else:
             if stream[:len(got_stream)] != got_stream or ungot[:len(got_unget)] != got_unget:
                 problems.append(("bytes", {"what": "returned bytes are not a prefix of what was sent"}))
+    for r in history:
+        if r["k"] == "req" and r["ret"][0] == "other":
+            problems.append(("foreign-value", {"returned": r["ret"][1]}))
     # 2. events: exactly once, per trigger in trigger order
     for src in ("ev", "ts0", "ts1"):
         sent = [r["id"] for r in history if r["k"] == "trig" and r["src"] == src]
